@@ -151,6 +151,9 @@ def run(ctx, rep):
     prefix_words_are_reserved(ctx, F, rep)
     loop_step_is_type_checked(F, rep)
     diagnostics_name_the_source_file(F, rep)
+    # `x op= y` whose result cannot be stored back into x is a type-breaking edit like any other (shared with C02)
+    from props import C02 as _c02
+    _c02.opassign_result_storable(F, rep, rule="C03.opassign-result")
 
 
 def every_argument_is_checked(F, rep, rule):
